@@ -282,6 +282,15 @@ def translate(tables_text, repo):
         out.append("Definition gen_lex_special : option (list N) := Some [%s]." % "; ".join(str(ord(c)) for c in special))
         out.append("Definition gen_keywords : option (list (string * string)) := Some [%s]." % "; ".join("(%s, %s)" % (qs(w), qs(t)) for w, t in kws))
     out.append("")
+    ver = None
+    try:
+        mm = re.search(r'^\[package\]\n(?:[^\[]*\n)*?version = "([^"]+)"', open(os.path.join(repo, "Cargo.toml")).read(), re.M)
+        ver = mm.group(1) if mm else None
+    except OSError:
+        pass
+    out.append("(* Cargo.toml: [package] version (printed by --version) *)")
+    out.append("Definition gen_package_version : option string := %s." % ("Some " + qs(ver) if ver else "None"))
+    out.append("")
     cl = scrape_cli(repo)
     out.append("(* main.rs, main_real: the optflag table (short name, long name) in order; the options that end the")
     out.append("   program at once, in the order tested; (option, RunOptions setter) in the order applied; the options")
